@@ -8,6 +8,7 @@ CHECK = {
     "gen": [{"pkg": "extract_c07", "out": "lean/ClusterVerif/Gen/C07.lean"}],
     "suites": [
         suite("auth", "c07", 160, 1600, stdin=True, args=["-suite", "auth"], timeout={"quick": 600, "thorough": 1800}),
+        suite("pol", "c07", 60, 600, stdin=True, args=["-suite", "pol"], timeout={"quick": 300, "thorough": 900}),
         suite("rep", "c07", 10, 160, stdin=True, args=["-suite", "rep"], timeout={"quick": 600, "thorough": 2400}),
     ],
     "lean_sources": ["ClusterVerif/Model/C07.lean", "ClusterVerif/Model/C07Sys.lean", "ClusterVerif/Spec/C07.lean", "ClusterVerif/Gen/C07.lean",
@@ -17,11 +18,15 @@ CHECK = {
             "configuration in four every caller (self + 3 remote hosts) calls every registered endpoint and 5 unregistered names over real "
             "libp2p streams (plus a hand-rolled client every 7th call). rep: observer trust configuration x calls x 1-4 non-conflicting "
             "updates by 3 publishers. Non-trivial = a remote caller on a registered endpoint under a shipped table / IsTrustedPeer of a "
-            "remote peer / an update by a peer the observer does not trust; distinct by case line",
+            "remote peer / an update by a peer the observer does not trust; distinct by case line. pol: a zero cluster Config taken through "
+            "1-6 steps of Default / LoadJSON (valid file + policy entries under three key spellings) / ApplyEnvVars (CLUSTER_RPCPOLICY-like "
+            "variables set) / the follower's assignment; Config.RPCPolicy against the shipped table, Validate(), and r1 (trusted) / r2 (untrusted) "
+            "calling the named + 13 sample endpoints on the real server built from that Config. Every served Config goes through Validate() first, as in NewCluster",
     "trusted_base": ["extract_c07 pattern matcher (fails closed) and go/ast, reflect",
                      "gorpc applies the authorization function to every remote stream and to no local call (go-libp2p-gorpc v0.1.3 server.go:240)",
                      "verif_export.go wrappers (VerifNewCluster, VerifNewRPCServer)",
-                     "frozen intent table Spec/C07.lean (which endpoints are meant for local use)"],
+                     "frozen intent table Spec/C07.lean (which endpoints are meant for local use)",
+                     "the key spellings the pol suite injects (rpc_policy, rpcpolicy, RPCPolicy; CLUSTER_RPCPOLICY, CLUSTER_RPC_POLICY); the follower's assignment is copied by hand in the harness (the model's copy is regenerated)"],
     "assumptions": ["a remote call that gets a non-authorization error has passed authorization (calls carry an undecodable argument so that no handler runs)",
                     "go-libp2p-pubsub drops a message whose topic validator returns false; go-ds-crdt learns remote heads only from pubsub",
                     "Distrust only edits the listed set: under '*' and in Raft every peer stays trusted"],
@@ -32,7 +37,12 @@ META = {
             "table, lifted to every endpoint name by lemmas about the closure semantics; induction over Trust/Distrust call lists and over delivered messages) "
             "show every clause of the property for the model. The model is tied to the running code by calling every endpoint from self/trusted/untrusted "
             "callers over real libp2p streams against the real newRPCServer with real crdt/raft consensus components, and by real crdt replicas where an "
-            "untrusted replica publishes pinset updates.",
+            "untrusted replica publishes pinset updates. The configuration path of the policy table is in the model too: the translator reads "
+            "cluster_config.go (Default/LoadJSON/ApplyEnvVars/applyConfigJSON/setDefaults/configJSON) and every non-test write of RPCPolicy / "
+            "DefaultRPCPolicy in the repository into a PolShape the model interprets; theorems: no sequence of configuration sources widens any "
+            "endpoint (config_sources_cannot_widen), file/environment entries never reach the table (policy_not_configurable), the configured "
+            "class of an endpoint is respected for every table (configured_class_respected); suite pol drives the real Config loader and a real "
+            "server built from the loaded Config.",
     "note": "Trusted: Lean kernel, the extractor's pattern matcher, gorpc's use of the authorization function, the frozen intent table, the harness.",
     "technique": "Lean 4 theorems over regenerated tables/decision trees (translator) + correspondence run over real libp2p RPC and real CRDT replicas",
 }
